@@ -154,3 +154,6 @@ func Verif_C10_X0_PutOutcomes() { verifScenarioHierPut() }
 
 // Refreshes and reads only ever write keys of the digest's own instance-name chain.
 func Verif_C10_X0_GetOutcomes() { verifScenarioHierGet() }
+
+// Existence checks refresh under the name that answered, never under a wider one.
+func Verif_C10_X0_FindMissingOutcomes() { verifScenarioHierFindMissing() }
